@@ -11,7 +11,10 @@ VALUES = [("-0.5", Fraction(-1, 2)), ("-0.001", Fraction(-1, 1000)), ("0", Fract
           ("0.5", Fraction(1, 2)), ("1", Fraction(1)), ("1.0", Fraction(1)), ("1.001", Fraction(1001, 1000)),
           ("1.5", Fraction(3, 2)), ("2", Fraction(2)), ("1/2", Fraction(1, 2)), ("3/2", Fraction(3, 2)),
           ("0.5+0.7", Fraction(6, 5)), ("0.2+0.3", Fraction(1, 2)), ("-0.1", Fraction(-1, 10)), ("2-1.5", Fraction(1, 2)),
-          ("0.5*4", Fraction(2))]
+          ("0.5*4", Fraction(2)),
+          # not-a-number and infinite annotations are outside [0,1] as well (the oracle only needs "invalid":
+          # they are given the out-of-range stand-in value 2)
+          ("nan", Fraction(2)), ("inf", Fraction(2)), ("inf-inf", Fraction(2)), ("0*inf", Fraction(2))]
 AD_SETS = [["0.6", "0.6"], ["0.5", "0.5"], ["0.5", "0.5", "0.001"], ["0.4", "0.4", "0.4"], ["0.3", "0.3", "0.3"],
            ["0.9", "0.2"], ["0.5", "0.501"], ["1", "0.001"], ["0.2", "0.3"], ["1.5", "0.1"], ["-0.2", "0.5"],
            ["1/2", "2/3"], ["1/2", "1/3"]]
